@@ -40,6 +40,8 @@ def logical_configs():
     triangle = {'type': 'Feature', 'geometry': {'type': 'Polygon', 'coordinates': [[[0, 0], [2, 0], [2, 2], [0, 0]]]}}
     out['regions-sharing-a-bounding-box'] = [dict(window={'starting': 100, 'ending': 200}, region=square, streams={'temp': {'qartod': {'gross_range_test': gr}}}),
                                              dict(window={'starting': 100, 'ending': 200}, region=triangle, streams={'temp': {'qartod': {'spike_test': sp}}})]
+    out['half-open-windows-meeting'] = [dict(window={'ending': 200}, region=None, streams={'temp': {'qartod': {'gross_range_test': gr}}}),
+                                        dict(window={'starting': 200}, region=None, streams={'temp': {'qartod': {'spike_test': sp}}})]
     out['windowed'] = [dict(window={'starting': 100, 'ending': 200}, region=None, streams={'temp': {'qartod': {'gross_range_test': gr}}})]
     out['ending-only-window'] = [dict(window={'ending': 200}, region=None, streams={'temp': {'qartod': {'gross_range_test': gr}}})]
     out['window-ending-first'] = [dict(window=collections.OrderedDict([('ending', 200), ('starting', 100)]), region=None, streams={'temp': {'qartod': {'gross_range_test': gr}}}),
@@ -159,7 +161,10 @@ def actual_calls(ck, inst):
         ctx = c.attrs['context']
         w = ctx.attrs['window']
         region = ctx.attrs['region']
-        calls.append((c.attrs['stream_id'], fn.module.name.replace('ioos_qc.', ''), fn.name, freeze(part.keywords),
+        # the function a call names: by its public __module__ / __name__ (a functools.wraps shim around a test still names that test)
+        mod_name = fn.attrs.get('__module__', fn.module.name)
+        fn_name = fn.attrs.get('__name__', fn.name)
+        calls.append((c.attrs['stream_id'], mod_name.replace('ioos_qc.', ''), fn_name, freeze(part.keywords),
                       (w.starting, w.ending), None if region is None else ck.runner.interp.getattr(region, 'wkb', None)))
     return sorted(calls, key=repr)
 
